@@ -206,6 +206,17 @@ def run_session(w, sc, mon):
         x[k4 % 4] ^= 0x04
         x[16 + k4 % 4] ^= 0x04
         pats.append(("mirrored_words", bytes(x)))
+    # differences that cancel under addition modulo 256 (a compare that sums XOR or arithmetic differences)
+    i, j = rnd.sample(range(20), 2)
+    d = rnd.randrange(1, 256)
+    x = bytearray(M1)
+    x[i] ^= d
+    x[j] ^= (256 - d) & 0xFF
+    pats.append(("xor_sum_cancel", bytes(x)))
+    x = bytearray(M1)
+    x[i] = (x[i] + d) & 0xFF
+    x[j] = (x[j] - d) & 0xFF
+    pats.append(("add_cancel", bytes(x)))
     for name, p in (pats if full else rnd.sample(pats, 3)):
         server_decision("M1_pattern", name, A, p)
     # A perturbed, proof kept
@@ -257,6 +268,17 @@ def run_session(w, sc, mon):
         x[i] ^= 0x02
         x[j] ^= 0x02
         pats2.append(("pair", bytes(x)))
+    # differences that cancel under addition modulo 256 (a compare that sums XOR or arithmetic differences)
+    i, j = rnd.sample(range(20), 2)
+    d = rnd.randrange(1, 256)
+    x = bytearray(M2)
+    x[i] ^= d
+    x[j] ^= (256 - d) & 0xFF
+    pats2.append(("xor_sum_cancel", bytes(x)))
+    x = bytearray(M2)
+    x[i] = (x[i] + d) & 0xFF
+    x[j] = (x[j] - d) & 0xFF
+    pats2.append(("add_cancel", bytes(x)))
     for name, p in (pats2 if full else rnd.sample(pats2, 3)):
         client_decision("M2_pattern", name, p)
     client_decision("M2_correct", 0, M2)
